@@ -25,7 +25,7 @@ impl Seg {
         match &self.kind {
             SegKind::Ast { scope, size } => {
                 if self.param > 0 {
-                    format!("scope {} size {} (inputs <= {})", scope, size, self.param)
+                    format!("scope {} size {} (layer parameter {})", scope, size, self.param)
                 } else {
                     format!("scope {} size {}", scope, size)
                 }
